@@ -1066,6 +1066,14 @@ func (w *gcsWorld) CompareState() string {
 		if want := mdl.Names(b); fmt.Sprintf("%q", got) != fmt.Sprintf("%q", want) {
 			return fmt.Sprintf("objects of bucket %s: listed %q, want %q", b, got, want)
 		}
+		// what the listing says about an object is what its metadata GET says (both are compared with the model)
+		for _, it := range pg.Items {
+			if want := mdl.View(b, it.Name); want != nil {
+				if d := gcs.DiffView(it, *want, !mdl.Get(b, it.Name).Composite); d != "" {
+					return fmt.Sprintf("listing of bucket %s, item %q differs from the object: %s", b, it.Name, d)
+				}
+			}
+		}
 		for _, n := range mdl.Names(b) {
 			o := GOp{Kind: "GetMeta", Bucket: b, Name: n}
 			if m, _ := w.step(&o); m != "" {
